@@ -2370,10 +2370,12 @@ def _escaped_like_impl(
         if not isinstance(other, str):
             raise TypeError("String value expected when autoescape=True")
 
-        if escape not in ("%", "_"):
-            other = other.replace(escape, escape + escape)
-
-        other = other.replace("%", escape + "%").replace("_", escape + "_")
+        # escape in a single pass, so that an escape character which is
+        # itself a wildcard ("%" or "_") is not escaped a second time
+        other = "".join(
+            escape + char if char in ("%", "_", escape) else char
+            for char in other
+        )
 
     return fn(other, escape=escape)
 
